@@ -385,10 +385,13 @@ def _empi_item(draw, allow_short=True):
 @st.composite
 def empi_prefix_case(draw, tier):
     variant = draw(st.sampled_from(["single", "single", "single", "list", "bad", "bad", "bad_list"]))
+    # "long": the drawn (short) data repeated up to a length around the sizes where implementations switch algorithm;
+    # the drawn prefixes stay (so early prefixes still miss outcomes) and the full length is added as last prefix
+    long_len = draw(st.sampled_from([None] * 5 + [9999, 10000, 10001, 16385, 40000]))
     if variant == "single":
-        return {"variant": variant, "item": draw(_empi_item())}
+        return {"variant": variant, "item": draw(_empi_item()), "long_len": long_len}
     if variant == "list":
-        return {"variant": variant, "items": draw(st.lists(_empi_item(), min_size=0, max_size=4))}
+        return {"variant": variant, "items": draw(st.lists(_empi_item(), min_size=0, max_size=4)), "long_len": long_len}
     if variant == "bad_list":
         items = draw(st.lists(_empi_item(), min_size=1, max_size=3))
         return {"variant": variant, "items": items, "bad": draw(st.sampled_from(["dataset_len", "num_sums_len", "ms_len"]))}
@@ -443,11 +446,26 @@ def _check_empi_result(ctx, res, m, data, num_sums, tag):
         prev_cnt, prev_n = cnt, n_k
 
 
+def _lengthened(it, long_len):
+    if not long_len or not it["data"]:
+        return it
+    reps_ = -(-int(long_len) // len(it["data"]))
+    data = (list(it["data"]) * reps_)[: int(long_len)]
+    return {"m": it["m"], "data": data, "num_sums": sorted(set(list(it["num_sums"]) + [len(data)]))}
+
+
 def check_empi_prefix(case, ctx):
     from quara.qcircuit import data_generator as dg
 
     v = case["variant"]
     ctx.label("variant:" + v)
+    if case.get("long_len") and v in ("single", "list"):
+        ctx.label(f"long-data:{case['long_len']}")
+        case = dict(case)
+        if v == "single":
+            case["item"] = _lengthened(case["item"], case["long_len"])
+        else:
+            case["items"] = [_lengthened(i, case["long_len"]) for i in case["items"]]
     if v == "single":
         it = case["item"]
         data_before = list(it["data"])
